@@ -1290,6 +1290,40 @@ impl Observer for AuthzObserver {
                             return Err(Failure::new("commit-changed-more-than-it-names", detail));
                         }
                     }
+                    // field by field: an update touches the fields it names and no others
+                    if !ev.named.data_fields.is_empty() && ev.deps.is_empty() && ev.named.rogue.is_none() {
+                        let (b, a) = (&bl.ext, &al.ext);
+                        let touched: Vec<&str> = [
+                            ("name", b.name != a.name),
+                            ("description", b.description != a.description),
+                            ("relays", b.relays != a.relays),
+                            ("admins", b.admins != a.admins),
+                            ("nostr_group_id", b.nostr_group_id != a.nostr_group_id),
+                            ("image_hash", b.image_hash != a.image_hash),
+                            ("image_key", b.image_key != a.image_key),
+                            ("image_nonce", b.image_nonce != a.image_nonce),
+                            ("image_upload_key", b.image_upload_key != a.image_upload_key),
+                        ]
+                        .iter()
+                        .filter(|(_, changed)| *changed)
+                        .map(|(n, _)| *n)
+                        .collect();
+                        // (documented coupling: clearing the image hash clears key, nonce and upload key)
+                        let clears_image = ev.named.data_fields.iter().any(|f| f == "image_hash") && a.image_hash.is_none();
+                        let unnamed: Vec<&str> = touched
+                            .iter()
+                            .copied()
+                            .filter(|n| !ev.named.data_fields.iter().any(|f| f == n))
+                            .filter(|n| !(clears_image && matches!(*n, "image_key" | "image_nonce" | "image_upload_key")))
+                            .collect();
+                        if !unnamed.is_empty() {
+                            return Err(Failure::new(
+                                "commit-changed-more-than-it-names",
+                                format!("{}; the update named the fields {:?}, but the receiver also saw {:?} change", describe(), ev.named.data_fields, unnamed),
+                            ));
+                        }
+                        self.classes.insert("update-judged-field-by-field".into());
+                    }
                     // ... and nothing less: everything the call named has happened
                     if ev.named.rogue.is_none() {
                         let missing_removed: Vec<&String> =
